@@ -470,7 +470,7 @@ func (w *worker) runC05(c *Case, pw, dw string) error {
 // allFlags are the deviation flags of the model (Cfg); "P" is the pinned configuration (all of them
 // until a proposed fix is applied and Cfg.pinned is updated). VERIF_FIXED=<letters> runs the check with
 // those flags off (to try the harness against a tree patched with a proposed fix).
-const allFlags = "esncowurlzmtfghda"
+const allFlags = "esncyowurlzmtfghda"
 
 var pinnedFlags = func() string {
 	off := os.Getenv("VERIF_FIXED")
@@ -479,7 +479,7 @@ var pinnedFlags = func() string {
 	}
 	s := allFlags
 	for i := 0; i < len(off); i++ {
-		s = strings.ReplaceAll(s, string(off[i]), "")
+		s = strings.ReplaceAll(s, string(off[i]), "") // ('i' is not a model flag: see unmodelled)
 	}
 	if s == "" {
 		return "-"
@@ -504,6 +504,7 @@ var flagSlug = map[byte]string{
 	's': "descent-siblings",
 	'n': "locate-negative-end",
 	'c': "locate-start-clamp",
+	'y': "locate-empty-array",
 	'o': "locate-root",
 	'w': "walk-descent-self",
 	'u': "getnodes-union-nil",
@@ -872,12 +873,13 @@ func (w *worker) runC11(c *Case, pw, dw string) error {
 // unmodelled names the known finding for (evaluator, representation, path) classes in which the code's
 // behaviour depends on state the model does not carry.
 func unmodelled(ev string, r Rep, p Path) string {
+	fixed := os.Getenv("VERIF_FIXED") // 'l': the node.go fix, 'i': the FirstFound/Indexed fix is in the tree under test
 	switch {
-	case ev == "firstnode" && p.hasIntUnion():
+	case ev == "firstnode" && p.hasIntUnion() && !strings.Contains(fixed, "l"):
 		// node.go FirstNode, Union: `v` keeps whatever an earlier fragment or member left in it when an
 		// index member is out of range, and that stale value is returned or pushed
 		return "C11-firstnode-union"
-	case ev == "first" && r.AK == "indexed" && p.has('d'):
+	case ev == "first" && r.AK == "indexed" && p.has('d') && !strings.Contains(fixed, "i"):
 		// get.go FirstFound, Descent on an Indexed: the node is not put back and no markers are pushed, so
 		// the descent degenerates to "the container elements of the node"
 		return "C11-first-indexed-descent"
